@@ -274,6 +274,34 @@ def make_ops(rng, tag):
                 sys.modules.pop(mname, None)
         return ('decorate-pep695+call', f, ('equals', use_good))
 
+    def op_decor_later():
+        # a union / type tuple naming a class that does not exist yet when the callable is decorated: the members are
+        # partitioned into resolved and unresolved ones through two pooled scratch lists
+        use_good = rng.random() < .5
+        hint_src = rng.choice(("Union['Later', int, str]", "Optional[Union['Later', bytes]]", "list[Union[int, 'Later', str]]"))
+        good, bad = (([3] if hint_src.startswith('list') else b'x' if 'bytes' in hint_src else 3),
+                     ([3.5] if hint_src.startswith('list') else 3.5))
+        src = f"from typing import Optional, Union\ndef g(a: {hint_src}) -> {hint_src}:\n    return a\n"
+        uid = rng.randrange(10 ** 9)
+
+        def f():
+            import types as _ty
+            mname = f'c15later_{tag}_{uid}_{threading.get_ident()}'
+            mod = _ty.ModuleType(mname)
+            sys.modules[mname] = mod
+            try:
+                exec(compile(src, f'<{mname}>', 'exec'), mod.__dict__)
+                w = beartype.beartype(mod.g)
+                mod.Later = Fresh
+                try:
+                    w(good if use_good else bad)
+                    return True
+                except BeartypeHintViolation:
+                    return False
+            finally:
+                sys.modules.pop(mname, None)
+        return ('decorate-unresolved-union+call', f, ('equals', use_good))
+
     def op_hook(shared):
         # own names are children of one parent created for this schedule, so that concurrent
         # registrations race on creating the same intermediate registry nodes
@@ -297,7 +325,7 @@ def make_ops(rng, tag):
         return ('hook:' + ('shared' if shared else 'own-with-skip' if with_skip else 'own'), f, ('equals', True))
 
     makers = [lambda: op_conf(True), lambda: op_conf(True), lambda: op_conf(False), op_typehint, op_typehint, op_bearable, op_bearable,
-              op_die, op_subhint, op_decor, op_pep695, op_pep695, lambda: op_hook(True), lambda: op_hook(False)]
+              op_die, op_subhint, op_decor, op_decor_later, op_decor_later, op_pep695, op_pep695, lambda: op_hook(True), lambda: op_hook(False)]
     if rng.random() < .12:
         # a registration storm: every thread only registers packages of its own (mostly with skip lists) below the
         # one fresh parent - all of them race on the same registry nodes
